@@ -48,6 +48,9 @@ void inv_driver(vf::Draw &d, vf::Ctx &ctx, size_t n, int it, int form, void (*ke
   std::vector<T> A;
   vla::salt(d, n * 13 + (size_t)it * 5 + (size_t)form * 3 + sizeof(T));
   vla::GenInfo gi = vla::gen_matrix<T>(d, n, pivoted, A);
+  // overall magnitude: ||A X - I|| <= c n eps cond(A) is scale-free, so a third of the cases are scaled by an exact power of two
+  // (an absolute threshold anywhere in an inversion path shows up only away from magnitude 1)
+  if (d.integer(0, 2) == 0) { int lim = sizeof(T) == 4 ? 12 : 24; int sc = (int)d.integer(-lim, lim); if (sc) { for (auto &x : A) x = std::ldexp(x, sc); gi.desc += "; scaled by 2^" + std::to_string(sc); ctx.label(sc > 0 ? "scale:2^+k" : "scale:2^-k"); } }
   std::vector<ld> Aw = vla::widen(A.data(), n * n);
   std::vector<size_t> perm = vla::static_pivot(A.data(), n);
   bool pid = vla::is_identity(perm);
@@ -145,6 +148,7 @@ void binv_driver(vf::Draw &d, vf::Ctx &ctx, size_t J, size_t nb, void (*kern)(co
   vla::salt(d, J * 13 + nb * 5 + sizeof(T));
   for (size_t b = 0; b < nb; ++b) {
     std::vector<T> A; vla::GenInfo gi = vla::gen_matrix<T>(d, J, false, A);
+    if (d.integer(0, 2) == 0) { int lim = sizeof(T) == 4 ? 12 : 24; int sc = (int)d.integer(-lim, lim); if (sc) { for (auto &x : A) x = std::ldexp(x, sc); ctx.label(sc > 0 ? "scale:2^+k" : "scale:2^-k"); } }   // per slice
     std::copy(A.begin(), A.end(), all.begin() + b * J * J);
     Aw[b] = vla::widen(A.data(), J * J);
     // closed-form adjugate kernels: their error grows with ||A||^(J-1)/|det A|, which the same growth allowance g
